@@ -32,6 +32,11 @@ def _worker(fn, payload, conn, marker_path):
         finally:
             os._exit(3)
     signal.signal(signal.SIGUSR1, dump)
+    import sys, threading
+    sys.unraisablehook = lambda *a: None          # finalizers of abandoned loops / generators
+    threading.excepthook = lambda *a: None
+    import warnings
+    warnings.simplefilter('ignore')
     try:
         out = fn(payload)
         conn.send(('ok', pickle.dumps(out)))
